@@ -310,9 +310,14 @@ func (w *c15World) atQuiet(e *vrt.Exec) {
 
 func c15Explorer(prog string, bound int) (*sched.Explorer, *[]*c15World) {
 	var worlds []*c15World
-	x := &sched.Explorer{Bound: bound}
+	// a leading M: the execution also runs under the happens-before oracle and a data race on
+	// the contents of a map counts as a verdict (the Go runtime aborts the process on
+	// concurrent map access: the server stops serving); a leading X: the plain port is
+	// disabled (TLS-only server)
+	mapRaces := strings.HasPrefix(prog, "M")
+	prog = strings.TrimPrefix(prog, "M")
+	x := &sched.Explorer{Bound: bound, RaceDetect: mapRaces}
 	x.New = func() *sched.Run {
-		// a leading X: the plain port is disabled (TLS-only server)
 		w := &c15World{prog: strings.TrimPrefix(prog, "X"), tls: strings.ContainsAny(prog, "qjQxy"), tlsOnly: strings.HasPrefix(prog, "X")}
 		worlds = append(worlds[:0], w)
 		return &sched.Run{
@@ -326,6 +331,11 @@ func c15Explorer(prog string, bound int) (*sched.Explorer, *[]*c15World) {
 							site = site[:i]
 						}
 						return sched.Verdict{Clause: "panic@" + site, Detail: fmt.Sprintf("goroutine %q ended by panic (process abort): %s [%s]", t.Name, t.Panic, t.Stack), Obs: "panic"}
+					}
+				}
+				for _, rc := range r.Races {
+					if strings.HasSuffix(rc.Loc, "[]") {
+						return sched.Verdict{Clause: "concurrent-map-access", Detail: "unsynchronised concurrent access to the contents of a map (the Go runtime aborts the process with 'concurrent map writes' / 'concurrent map read and map write', the server stops serving): " + rc.String(), Obs: "map-race"}
 					}
 				}
 				obs := fmt.Sprintf("running=%v conns=%d %s", w.running, len(w.idle), sched.ThreadSummary(r))
@@ -413,6 +423,8 @@ func c15Run(c *fw.Ctx) {
 		// TLS clients whose handshake fails, with the server left running, stopped or restarted afterwards
 		// connections whose Close reports an error, before and after others in the registry
 		"SkiT", "SikT", "SkiiT", "SkjT", "SkiR", "SikRp", "SkiPT",
+		// clients connecting at the same time, under the happens-before oracle
+		"MSPPT", "MSPQT", "MSQQi", "MSPPi", "MSiPPR",
 		"Sx", "Sy", "Sxj", "Sjy", "SxyT", "SxRy", "SjxRj", "SyQT", "XSxj", "XSyT"}
 	if !phase("p1_reconfigured_bound2", reconf, 2) {
 		return
@@ -449,7 +461,7 @@ func c15Explore(c *fw.Ctx, prog string, bound int) {
 			// determinism self-check: replay the first schedule and compare
 			y, _ := c15Explorer(prog, 0)
 			run := y.New()
-			r2 := vrt.Run(vrt.Options{Choices: choices}, run.Body, run.AtQuiet)
+			r2 := vrt.Run(vrt.Options{Choices: choices, RaceDetect: strings.HasPrefix(prog, "M")}, run.Body, run.AtQuiet)
 			if sched.Signature(r2) != sched.Signature(r) {
 				c.HarnessError("C15 %s: replaying the same schedule gave a different execution", prog)
 			}
@@ -525,7 +537,7 @@ func c15Replay(raw json.RawMessage) (string, bool, error) {
 	}
 	x, _ := c15Explorer(cs.Program, 0)
 	run := x.New()
-	r := vrt.Run(vrt.Options{Choices: cs.Choices, LogEvents: true}, run.Body, run.AtQuiet)
+	r := vrt.Run(vrt.Options{Choices: cs.Choices, LogEvents: true, RaceDetect: strings.HasPrefix(cs.Program, "M")}, run.Body, run.AtQuiet)
 	if r.Diverged != "" {
 		return "", false, fmt.Errorf("schedule does not replay: %s", r.Diverged)
 	}
